@@ -147,12 +147,46 @@ def _to_symbolic_repr(model: Model) -> SymbolicRepr:
     return sym
 
 
+def _same_function(
+    one: tuple[sympy.Expr, list[str]], other: tuple[sympy.Expr, list[str]]
+) -> bool:
+    """Whether two specialised functions only differ in their argument names."""
+    if len(one[1]) != len(other[1]):
+        return False
+    positional = sympy.symbols(f"_arg0:{len(one[1])}", seq=True)
+    return bool(
+        one[0].subs(dict(zip(one[1], positional, strict=True)), simultaneous=True)
+        == other[0].subs(dict(zip(other[1], positional, strict=True)), simultaneous=True)
+    )
+
+
+def _register_fn(
+    functions: dict[str, tuple[sympy.Expr, list[str]]],
+    fn_name: str,
+    expr: sympy.Expr,
+    args: list[str],
+) -> str:
+    """Register a function definition and return the name it is emitted under.
+
+    Components that use one function with other argument names share a definition;
+    different functions that happen to have the same name get a numbered one.
+    """
+    name, n = fn_name, 1
+    while (existing := functions.get(name)) is not None and not _same_function(
+        existing, (expr, args)
+    ):
+        name, n = f"{fn_name}_{n}", n + 1
+    functions[name] = (expr, args)
+    return name
+
+
 def _codegen_variable(
     k: str, var: SymbolicVariable, functions: dict[str, tuple[sympy.Expr, list[str]]]
 ) -> str:
     if isinstance(init := var.value, SymbolicFn):
-        fn_name = f"init_{init.fn_name}"
-        functions[fn_name] = (init.expr, init.args)
+        fn_name = _register_fn(
+            functions, f"init_{init.fn_name}", init.expr, init.args
+        )
         return f"""        .add_variable(
             {k!r},
             initial_value=InitialAssignment(fn={fn_name}, args={init.args!r}),
@@ -168,8 +202,9 @@ def _codegen_parameter(
     k: str, par: SymbolicParameter, functions: dict[str, tuple[sympy.Expr, list[str]]]
 ) -> str:
     if isinstance(init := par.value, SymbolicFn):
-        fn_name = f"init_{init.fn_name}"
-        functions[fn_name] = (init.expr, init.args)
+        fn_name = _register_fn(
+            functions, f"init_{init.fn_name}", init.expr, init.args
+        )
         return f"""        .add_parameter(
             {k!r},
             value=InitialAssignment(fn={fn_name}, args={init.args!r}),
@@ -206,11 +241,11 @@ def generate_mxlpy_code_from_symbolic_repr(
     # Derived
     derived_source = []
     for k, fn in model.derived.items():
-        functions[fn.fn_name] = (fn.expr, fn.args)
+        fn_name = _register_fn(functions, fn.fn_name, fn.expr, fn.args)
         derived_source.append(
             f"""        .add_derived(
                 {k!r},
-                fn={fn.fn_name},
+                fn={fn_name},
                 args={fn.args},
             )"""
         )
@@ -219,13 +254,17 @@ def generate_mxlpy_code_from_symbolic_repr(
     reactions_source = []
     for k, rxn in model.reactions.items():
         fn = rxn.fn
-        functions[fn.fn_name] = (fn.expr, fn.args)
+        rxn_fn_name = _register_fn(functions, fn.fn_name, fn.expr, fn.args)
 
         stoichiometry: list[str] = []
         for var, stoich in rxn.stoichiometry.items():
             if isinstance(stoich, SymbolicFn):
-                fn_name = f"{k}_stoich_{stoich.fn_name}"
-                functions[fn_name] = (stoich.expr, stoich.args)
+                fn_name = _register_fn(
+                    functions,
+                    f"{k}_stoich_{stoich.fn_name}",
+                    stoich.expr,
+                    stoich.args,
+                )
                 stoichiometry.append(
                     f""""{var}": Derived(fn={fn_name}, args={stoich.args!r})"""
                 )
@@ -236,7 +275,7 @@ def generate_mxlpy_code_from_symbolic_repr(
         reactions_source.append(
             f"""        .add_reaction(
                 "{k}",
-                fn={fn.fn_name},
+                fn={rxn_fn_name},
                 args={fn.args},
                 stoichiometry={{{",".join(stoichiometry)}}},
             )"""
